@@ -1,5 +1,6 @@
 //! Glue between TLC-generated cases and the real glas crates.
 pub mod lexis;
 pub mod programs;
+pub mod queries;
 pub mod util;
 pub mod workspace;
